@@ -116,11 +116,13 @@ def methods : List (String × List Step) := [
     { kinds := none, attr := "directives", shape := .many, guard := .always, assign := true, target := (.method "_visit_directive") },
     { kinds := none, attr := "selection_set", shape := .one, guard := .always, assign := true, target := (.method "_visit_selection_set") }]),
   ("_visit_fragment_definition", [
+    { kinds := none, attr := "variable_definitions", shape := .many, guard := .always, assign := true, target := (.method "_visit_variable_definition") },
     { kinds := none, attr := "directives", shape := .many, guard := .always, assign := true, target := (.method "_visit_directive") },
     { kinds := none, attr := "selection_set", shape := .one, guard := .always, assign := true, target := (.method "_visit_selection_set") }]),
   ("_visit_variable_definition", [
     { kinds := none, attr := "default_value", shape := .one, guard := .truthy, assign := true, target := (.method "_visit_value") },
-    { kinds := none, attr := "type", shape := .one, guard := .always, assign := true, target := (.method "_visit_type") }]),
+    { kinds := none, attr := "type", shape := .one, guard := .always, assign := true, target := (.method "_visit_type") },
+    { kinds := none, attr := "directives", shape := .many, guard := .always, assign := true, target := (.method "_visit_directive") }]),
   ("_visit_type", []),
   ("_visit_directive", [
     { kinds := none, attr := "arguments", shape := .many, guard := .always, assign := true, target := (.method "_visit_argument") }]),
